@@ -56,6 +56,8 @@ def gen_retry(rng, cid):
             plan.append(['readerr', rng.choice([0, 0, 1, 2, 3])])
         else:
             plan.append(['read', rng.choice([0, 1, 2, 3])])
+    if rng.random() < 0.25:   # every reopen succeeds and the read after it fails, more often than the budget allows
+        plan += [['readerr', 0] for _ in range(budget + rng.choice([1, 2, 4]))]
     if rng.random() < 0.3:   # a burst around the budget
         burst = rng.choice([budget, budget + 1, budget + 2])
         plan += [rng.choice([['openfail'], ['readerr', rng.choice([0, 1])]]) for _ in range(burst)]
